@@ -29,7 +29,9 @@ LIT = list("abcXYZ019_-./=:,{}@+") + ["é", "日", "ü", "~"]
 KEYS_S = ["benchmark", "cores", "executor", "input", "suite", "variable", "tag"]
 KEYS_I = ["iterations", "warmup"]
 TILDE_WORDS = ["~", "~/x", "~/", "~zz9", "~/a/b", "x~y", "a:~/b", "~/p:~/q", "~:~", "=~/x", "a~:b"]
-VALUES = ["v1", "50%", "a%%b", "%(x)s", "%(invocation)s", "%", "~v", "x y", "", "{k}", "é%", "7", "a:b", "%s", "~/w"]
+# digit strings that are not the decimal rendering of their number must reach the command as written ("007", not 7)
+VALUES = ["v1", "50%", "a%%b", "%(x)s", "%(invocation)s", "%", "~v", "x y", "", "{k}", "é%", "7", "a:b", "%s", "~/w",
+          "007", "0012", "\u0663", "1_0", "+5", "0x1F", "1e3", "  "]
 NAMES = ["Bench", "b-1", "S%1", "Ex{a}", "n.m", "ü"]
 
 
